@@ -4,8 +4,8 @@
 tier="${1:-quick}"; shift
 cd /verif
 ids="$@"; [ -z "$ids" ] && ids=$(ls seeded | grep -E '^C[0-9]+' )
-out=seeded/RESULTS.md
-echo "# Seeded changes vs checks (tier=$tier, $(date -u +%F))" > $out.tmp
+out=${SEED_MATRIX_OUT:-seeded/RESULTS.md}
+echo "# Seeded changes vs checks (tier=$tier, VERIF_SEED=${VERIF_SEED:-0}, $(date -u +%F))" > $out.tmp
 echo "" >> $out.tmp
 echo "| seed | property check | exit | verdict | first violation signature |" >> $out.tmp
 echo "|---|---|---|---|---|" >> $out.tmp
